@@ -164,7 +164,8 @@ class Sphere(Shape3D):
         # The formula for a the form factor of a sphere may be found here:
         # http://gisaxs.com/index.php/Form_Factor:Sphere
         # (among other sources).
-        q = np.atleast_2d(q)
+        # Integer wave vectors would overflow in the squares below.
+        q = np.atleast_2d(np.asarray(q, dtype=np.float64))
         form_factor = np.empty(q.shape[0], dtype=np.complex128)
         q_sqs = np.sum(q * q, axis=-1)
         # Decide "q is zero" relative to the size of the sphere.
